@@ -43,6 +43,27 @@ pub fn strs(v: &Value) -> Vec<String> {
 /// `o`: start-up options {x, v, n, i}; `dots`: [{f, lines}] dot scripts;
 /// `env`: "" or "PS4=value" (PS4 inherited from the environment).
 pub fn run_scenario(lines: &[String], o: &Value, dots: &Value, env: &str) -> Obs {
+    run_scenario_mode(lines, o, dots, env, false)
+}
+
+/// The verbose option may come on in this scenario (the echo of a `-c` string
+/// is not documented: such scenarios run as standard input only).
+pub fn may_be_verbose(lines: &[String], o: &Value) -> bool {
+    // "-" followed by option letters that include v (-v, -xv, -nv)
+    fn sets_v(l: &str) -> bool {
+        let b = l.as_bytes();
+        (0..b.len()).any(|i| {
+            b[i] == b'-' && {
+                let letters: Vec<u8> = b[i + 1..].iter().copied().take_while(|c| c.is_ascii_lowercase()).collect();
+                !letters.is_empty() && letters.iter().all(|c| b"xvn".contains(c)) && letters.contains(&b'v')
+            }
+        })
+    }
+    o["v"].as_bool() == Some(true) || lines.iter().any(|l| l.contains("verbose") || sets_v(l))
+}
+
+/// `cmdstring`: the script is the operand of `-c` instead of the standard input.
+pub fn run_scenario_mode(lines: &[String], o: &Value, dots: &Value, env: &str, cmdstring: bool) -> Obs {
     let mut text = lines.join("\n");
     text.push('\n');
     let mut argv = vec!["yash".to_string()];
@@ -59,8 +80,14 @@ pub fn run_scenario(lines: &[String], o: &Value, dots: &Value, env: &str) -> Obs
         argv.push("-i".into());
         argv.push("+m".into());
     }
+    if cmdstring {
+        argv.push("-c".into());
+        argv.push(text.clone());
+    }
     let mut cfg = ShellCfg::with_argv(argv);
-    cfg.stdin = text.into_bytes();
+    if !cmdstring {
+        cfg.stdin = text.into_bytes();
+    }
     cfg.cwd = Some("/w".into());
     cfg.files.push(FileSpec::Dir { path: "/w".into() });
     for d in dots.as_array().into_iter().flatten() {
